@@ -13,6 +13,7 @@ import (
 	_ "go.nanomsg.org/mangos/v3/transport/tcp"
 	_ "go.nanomsg.org/mangos/v3/vh/vipc"
 	"go.nanomsg.org/mangos/v3/vh/c07"
+	"go.nanomsg.org/mangos/v3/vh/c13"
 	"go.nanomsg.org/mangos/v3/vh/kinds"
 	"go.nanomsg.org/mangos/v3/vh/kit"
 	"go.nanomsg.org/mangos/v3/vh/ledger"
@@ -56,12 +57,15 @@ func init() {
 			{Name: "stream-recv-sizes", Mode: "enum", Reset: kit.ResetGlobals, Body: recvSizes},
 			{Name: "stream-limit-changed-after-listen", Mode: "enum", Reset: kit.ResetGlobals, Body: limitAfterListen, NeedCounters: []string{"delivered-at-new-limit"}},
 			{Name: "stream-ends-inside-the-frame-after-a-complete-message", Mode: "enum", Reset: kit.ResetGlobals, Body: truncatedAfterComplete, NeedCounters: []string{"ended-right-after-length-prefix", "ended-inside-payload"}},
+			{Name: "stream-full-duplex", Mode: "sched", Bound: map[string]int{"quick": 2, "thorough": 3}[tier], Reset: kit.ResetGlobals, Body: fullDuplex},
 			{Name: "stream-write-fails-then-retransmission", Mode: "enum", Reset: kit.ResetGlobals, Body: writeFailsThenRetransmit, NeedCounters: []string{"retransmitted-intact"}},
 		}
 	})
 	vexplore.Register("C15", func(tier string) []*vexplore.Scenario {
 		return []*vexplore.Scenario{
 			{Name: "sp-header-and-framing-all-protocols", Mode: "enum", Reset: kit.ResetGlobals, Body: wireAllProtocols, NeedCounters: []string{"header-exact", "frame-exact"}},
+			{Name: "full-duplex-framing", Mode: "sched", Bound: map[string]int{"quick": 2, "thorough": 3}[tier], Reset: kit.ResetGlobals, Body: fullDuplex},
+			{Name: "handshake-aborted-then-conformant-peer", Mode: "enum", Reset: kit.ResetGlobals, Body: c13.TCPAborted},
 			{Name: "two-connections-one-stalled-framing", Mode: "enum", Reset: kit.ResetGlobals, Body: stalledFraming, NeedCounters: []string{"stalled-stream-exact"}},
 		}
 	})
@@ -983,6 +987,64 @@ func stalledFraming() {
 	kit.Count("stalled-stream-exact")
 	kit.Observe("%s %v", scheme, sizes)
 	kit.Must("Close", func() { _ = v.x.S.Close() })
+}
+
+// fullDuplex: traffic in both directions on one connection at the same time.  The application
+// sends two messages while two frames arrive from the peer; every interleaving of the
+// connection's reader and writer is explored.  The bytes mangos writes are exactly the two frames,
+// and the application receives exactly the two payloads - neither direction disturbs the other.
+func fullDuplex() {
+	pickScheme()
+	k := kinds.ByName("pair")
+	v := open(k, -1)
+	h := v.goodPeer("duplex")
+	hl := len(h.Written())
+	outs := [][]byte{pat(21, 5), pat(22, 300)}
+	ins := [][]byte{pat(23, 110), pat(24, 7)}
+	sc := kit.Start("Sender", func() (interface{}, error) {
+		for _, o := range outs {
+			if err := kit.SendBytes(v.x.S, o); err != nil {
+				return nil, err
+			}
+		}
+		return nil, nil
+	})
+	var got [][]byte
+	rc := kit.Start("Receiver", func() (interface{}, error) {
+		for range ins {
+			b, err := kit.Recv(v.x.S)
+			if err != nil {
+				return nil, err
+			}
+			got = append(got, b)
+		}
+		return nil, nil
+	})
+	for _, in := range ins {
+		h.Feed(frame(in))
+	}
+	kit.Quiesce()
+	if !sc.Done() || sc.Err != nil || !rc.Done() || rc.Err != nil {
+		kit.Failf("duplex-stuck", "%s: sender done=%v %s, receiver done=%v %s (received %d of %d)", scheme, sc.Done(), kit.ErrName(sc.Err), rc.Done(), kit.ErrName(rc.Err), len(got), len(ins))
+	}
+	want := append(frame(outs[0]), frame(outs[1])...)
+	if w := h.Written()[hl:]; !bytes.Equal(w, want) {
+		kit.Failf("duplex-bytes-written-differ", "%s: with frames arriving at the same time, mangos wrote %d bytes for two messages of %d and %d bytes; first difference from the two frames at byte %d (% x ...)", scheme, len(w), len(outs[0]), len(outs[1]), firstDiff(w, want), clip(w, 12))
+	}
+	for i := range ins {
+		if !bytes.Equal(got[i], ins[i]) {
+			kit.Failf("duplex-received-differs", "%s: with messages being written at the same time, message %d was received as %d bytes (% x ...), sent as %d bytes", scheme, i, len(got[i]), clip(got[i], 12), len(ins[i]))
+		}
+	}
+	kit.Observe("%s ok", scheme)
+	kit.Must("Close", func() { _ = v.x.S.Close() })
+}
+
+func clip(b []byte, n int) []byte {
+	if len(b) > n {
+		return b[:n]
+	}
+	return b
 }
 
 func firstDiff(a, b []byte) int {
